@@ -72,6 +72,7 @@ type shard struct {
 	Unit        string           `json:"unit"`
 	Evaluations int64            `json:"evaluations"`
 	Nontrivial  int64            `json:"nontrivial"`
+	Counted     int64            `json:"counted"`
 	HashFile    string           `json:"hash_file"`
 	Disjoint    bool             `json:"disjoint"`
 	Classes     map[string]int64 `json:"classes"`
@@ -267,6 +268,7 @@ func run() int {
 		if sh.Disjoint || sh.HashFile == "" {
 			total.nontrivial += sh.Nontrivial
 		} else {
+			total.nontrivial += sh.Counted
 			hb, _ := os.ReadFile(sh.HashFile)
 			for i := 0; i+8 <= len(hb); i += 8 {
 				hashSet[binary.LittleEndian.Uint64(hb[i:])] = struct{}{}
